@@ -180,9 +180,16 @@ fn drive(cx: &mut Ctx, cell: &str, cj: &Value, put: &mut dyn Put, ops: &[Vec<u64
     macro_rules! single { ($n:expr, $size:expr, $align:expr) => {{
         let (n, size, align): (usize, usize, usize) = ($n, $size, $align);
         let id = next_id; next_id += 1;
+        let rem0 = guarded(|| put.remaining()).ok().flatten();
         match guarded(|| put.alloc(id, size, align)) {
             Err(p) => bad!(None, "op {}: allocate({}, align {}) panicked: {}", n, size, align, p),
-            Ok(None) => { ev.push(Ev { op: vec![0, size as u64, align as u64], res: None }); cx.sum.dist("alloc_refused"); }
+            Ok(None) => { ev.push(Ev { op: vec![0, size as u64, align as u64], res: None }); cx.sum.dist("alloc_refused");
+                // a refused request took nothing: what the pool reports as remaining is what it reported before
+                // (the history goes on, and every later block is checked against the live set as after any other step)
+                if let (Some(r0), Ok(Some(r1))) = (rem0, guarded(|| put.remaining())) {
+                    cx.sum.dist("alloc_refused_remaining_compared");
+                    if r1 != r0 { bad!(None, "op {}: the refused allocate({}, align {}) changed the remaining capacity the pool reports from {} to {}", n, size, align, r0, r1); }
+                } }
             Ok(Some(blk)) => admit!(n, blk, id, size, align),
         }
         if let Some(e) = put.complaint() { bad!(None, "op {}: allocate({}, align {}): {}", n, size, align, e); }
@@ -242,11 +249,14 @@ fn drive(cx: &mut Ctx, cell: &str, cj: &Value, put: &mut dyn Put, ops: &[Vec<u64
             2 => {
                 let size = (b as usize).max(1);
                 let lowest = if lo == usize::MAX { None } else { Some(lo) };
+                let rem0 = guarded(|| put.remaining()).ok().flatten();
                 match guarded(|| put.foreign(a, size, first, lowest)) {
                     Err(p) => bad!(None, "op {}: deallocating a foreign pointer panicked: {}", n, p),
                     Ok(None) => ev.push(Ev { op: op.clone(), res: Some(0) }),
                     Ok(Some(acc)) => {
                         if acc && a != 1 { bad!(None, "op {}: a pointer the pool never issued ({} bytes) was accepted by deallocate", n, size); }
+                        if !acc { if let (Some(r0), Ok(Some(r1))) = (rem0, guarded(|| put.remaining())) {
+                            if r1 != r0 { bad!(None, "op {}: the refused deallocate of a pointer the pool never issued changed the remaining capacity the pool reports from {} to {}", n, r0, r1); } } }
                         ev.push(Ev { op: op.clone(), res: if acc { Some(0) } else { None } });
                     }
                 }
@@ -1667,6 +1677,29 @@ fn generate(cx: &mut Ctx, args: &Args) {
     // the deterministic breadth families (c07_wide.rs): presets x entry points x internal thresholds
     if only.is_none() || only == Some(99) {
         for c in wide::families() { run_case_threaded(cx, &c, false); cx.sum.dist("family_cases"); }
+    }
+    // refused operations inside histories (deterministic: fixed generator seeds, independent of --seed): every pool kind, three
+    // histories each, with requests the pool has to refuse spliced in after every third of the history - a request two bytes above what
+    // the pool reports as remaining, deallocation of memory the pool never issued (through deallocate and deallocate_with_zero), a
+    // request of usize::MAX bytes where the cell's generator uses such sizes - and allocate / free traffic going on after each of them
+    if only.is_none() || only == Some(98) {
+        for which in 0u64..10 { for v in 0u64..3 {
+            let mut r = Rng::new(0xC07_4EF5 ^ (which * 64 + v));
+            let mut c = gen_case(&mut r, which, &bins);
+            if let Some(ops) = c["ops"].as_array().cloned() {
+                let spl: Vec<Value> = vec![json!([7, 4, 1]), json!([2, 0, 64]), json!([7, 3, 8]), json!([2, 2, 4096]), json!([2, 3 + v, 16]), json!([0, 40, 1]), json!([1, 0])];
+                let huge = which == 0;
+                let mut out: Vec<Value> = vec![];
+                let third = (ops.len() / 3).max(1);
+                for (i, o) in ops.iter().enumerate() {
+                    out.push(o.clone());
+                    if i % third == third - 1 { out.extend(spl.iter().cloned()); if huge { out.push(json!([0, u64::MAX, 1])); out.push(json!([0, u64::MAX - 7, 1])); out.push(json!([0, 24, 1])); } }
+                }
+                c["ops"] = json!(out);
+            }
+            run_case_threaded(cx, &c, false);
+            cx.sum.dist("refused_family_cases");
+        } }
     }
     for i in 0..rounds {
         // weights: the two modelled pools and the size-class pools get most cases
